@@ -198,7 +198,9 @@ def run(ctx):
         sx.ask(['setenv', S('VERIF_V'), S('wheels')])
         sx.ask(['setenv', S('VERIF_R'), S('/srv/project')])
         rx = reqmodel.ReqModel(sx.p, markers.Keys(sx.p), wd=wd)
-        for u in ['/opt/${VERIF_V}/p-1.0.whl', '${VERIF_R}/dist/p-1.0.whl', './${VERIF_V}/p.whl', 'file:///opt/${VERIF_V}/p.whl', 'file://localhost/opt/${VERIF_V}/p.whl',
+        sx.ask(['setenv', S('VERIF_P'), S('/opt/wheel%20house')])
+        for u in ['file:///opt/wheel%20house/p-1.0.whl', 'file://${VERIF_P}/p.whl', 'file:///opt/a%2Fb/c%C3%A9.whl', '/opt/wheel%20house/p.whl',
+                  '/opt/${VERIF_V}/p-1.0.whl', '${VERIF_R}/dist/p-1.0.whl', './${VERIF_V}/p.whl', 'file:///opt/${VERIF_V}/p.whl', 'file://localhost/opt/${VERIF_V}/p.whl',
                   '/opt/${VERIF_UNSET}/p.whl', 'https://h/${VERIF_V}/p.whl', '${VERIF_V}', '/opt/${VERIF_V}/${VERIF_V}#frag']:
             for cx in ('', " ; os_name == 'a'"):
                 text = 'name @ ' + u + cx
